@@ -62,7 +62,9 @@ def is_framed(node):
         'never',
     }:
         return 'annots' in node
-    return False
+    # any other applied or annotated primitive (chest, chest_key, tx_rollup_l2_address, constant, Lambda_rec,
+    # Ticket, ...) has to be parenthesised in argument position as well, otherwise it is parsed back as several arguments
+    return bool(node.get('args') or node.get('annots'))
 
 
 def is_complex(node):
